@@ -128,7 +128,7 @@ func init() {
 	register(&PropSpec{
 		ID:    "C01",
 		Level: "other",
-		Explanation: "Language equality for all grammars is not a static fact about lox's source. Decided are the structural ways in which a worklist LALR construction loses lookaheads (hence reduce actions, hence sentences): recursion guards that truncate FIRST (LALR-1), change-reporting mutators skipped by short-circuit evaluation or discarded inside fixed-point loops (LALR-2), states not re-queued when a merge adds lookaheads (LALR-3), stale memoised item lists (LALR-4), merge key = LR(0) kernel (LALR-5), closure/goto skeleton (LALR-6), one action per item (LALR-7), plus the table encoding (row compression FMT-5, action/goto encoding FMT-6) and the reduce sequence / sugar shapes of the runtime (ACT-1, ACT-3). " +
+		Explanation: "Language equality for all grammars is not a static fact about lox's source. Decided are the structural ways in which a worklist LALR construction loses lookaheads (hence reduce actions, hence sentences): recursion guards that truncate FIRST (LALR-1), change-reporting mutators skipped by short-circuit evaluation or discarded inside fixed-point loops (LALR-2), states not re-queued when a merge adds lookaheads (LALR-3), stale memoised item lists (LALR-4), merge key = LR(0) kernel (LALR-5), closure/goto skeleton (LALR-6), one action per item (LALR-7), plus the table encoding (row compression FMT-5, action/goto encoding FMT-6) and the reduce sequence / sugar shapes of the runtime (ACT-1, ACT-3); and, because a conflict that goes unreported is emitted as its first candidate and loses the sentences needing the other, that every candidate action is kept, every cell with more than one action is reported and generation aborts (CFL-1, CFL-2, CFL-4). " +
 			"NOT decided: that these pieces compute the LALR(1) automaton of every grammar.",
 		Run: func(c *Ctx) {
 			ruleLALR1(c)
@@ -142,6 +142,12 @@ func init() {
 			ruleFMT6(c)
 			ruleACT1(c)
 			ruleACT3(c)
+			// an undetected conflict is emitted as its first candidate: the parser then rejects the sentences
+			// that needed the other one, so "every candidate kept / every multi-action cell reported / abort"
+			// are necessary conditions of language equality too
+			ruleCFL1(c)
+			ruleCFL2(c)
+			ruleCFL4(c)
 		},
 	})
 	register(&PropSpec{
@@ -255,6 +261,8 @@ func init() {
 			ruleBIND3(c)
 			ruleBIND4(c)
 			ruleBIND5(c)
+			ruleBIND6(c)
+			ruleBIND7(c)
 		},
 	})
 	register(&PropSpec{
